@@ -349,7 +349,9 @@ Proof.
   eapply perm_trans; [apply sorted_edges_concat |].
   eapply perm_trans; [| apply Permutation_sym, sorted_edges_concat].
   eapply perm_trans; [apply perm_concat, Permutation_map, HP |].
-  clear HP. induction HF as [| f g l l' Hfg HF IH]; simpl; [reflexivity |].
+  clear HP. induction HF as [| f g l l' Hfg HF IH]; [reflexivity |].
+  change (Permutation (face_edges f ++ concat (map face_edges l))
+                      (face_edges g ++ concat (map face_edges l'))).
   apply Permutation_app; [apply face_edges_vperm, Hfg | exact IH].
 Qed.
 
